@@ -131,8 +131,20 @@ def _strings(prefix, n):
         yield from _strings(prefix + c, n - 1)
 
 
+def _ev_judge(i):
+    d = bytes([i % 3]) * (i % 4) + (i * 2654435761 % 2**40).to_bytes(5, "big")
+    return chk_bytes(d) + chk_checksummed(enc.b58check_encode(d)) + chk_checksummed(enc.b58encode(d + b"\x00\x01\x02\x03"))
+
+
 def execute(case):
-    k = case["k"]
+    k = case.get("k")
+    if "hist" in case:
+        from ..core import isolated
+        from ..bfs import PureCalls
+        r = isolated(PureCalls(10**6, _ev_judge, P).run, case["hist"])
+        for v in r["viols"]:
+            v["case"] = case
+        return R(r["label"], viols=r["viols"])
     viols, n, outcomes = [], 0, {}
 
     def acc(vs, single):
@@ -247,6 +259,20 @@ def run(ctx):
     cases = [{"k": "mapped", "c": c, "d": d, "pos": pos, "len": 21}
              for c in FOREIGN for d in ([-1, "skip"] + list(range(58))) for pos in (5, 20)]
     ctx.product("foreign-char-read-as-digit", cases, execute, chunk=16)
+    # inner runs of the zero digit '1' / of zero bytes at every length and alignment (radix conversion by digit groups)
+    cases = []
+    heads, tails = ["2", "z", "Zr", "5Q9"], ["", "2", "z", "8y", "zzz", "a1b", "Jx3k"]
+    for hd_ in heads:
+        for tl in tails:
+            for k in range(1, 14):
+                cases.append({"k": "str", "s": hd_ + "1" * k + tl})
+    for hb in (b"\x01", b"\xff", b"\x3a\x7c"):
+        for tb in (b"", b"\x01", b"\xff", b"\x10\x00\x01", b"\xab\xcd\xef\x01\x02"):
+            for k in range(1, 14):
+                cases.append({"k": "bytes", "hex": (hb + b"\x00" * k + tb).hex()})
+    ctx.product("inner-zero-runs", cases, execute)
+    from ..bfs import eviction_probe, PureCalls
+    eviction_probe(ctx, "codec-revisits", PureCalls(10**6, _ev_judge, P), lambda i: i)
     # strings shorter than a checksum / empty / only look-alikes
     cases = [{"k": "chk", "s": s} for s in ["", "1", "11", "111", "1111", "11111", "0", "O", "I", "l", " ", "3yQ", "3yQ "]]
     ctx.product("short-and-foreign", cases, execute, parallel=False)
